@@ -18,6 +18,8 @@ WMS service handler
 """
 from __future__ import print_function
 
+from html import escape
+
 import re
 from functools import partial
 
@@ -226,7 +228,7 @@ class WMTSServer(Server):
 
     def _service_md(self, tile_request):
         md = dict(self.md)
-        md['url'] = tile_request.url
+        md['url'] = escape(tile_request.url)
         return md
 
 
